@@ -281,7 +281,8 @@ class PKESessionKeyV3(PKESessionKey):
             self.ct.parse(packet)
 
         else:  # pragma: no cover
-            del packet[:(self.header.length - 18)]
+            # version (1) + key id (8) + algorithm (1) octets of the body have been consumed
+            del packet[:(self.header.length - 10)]
 
 
 class Signature(VersionedPacket):
